@@ -59,6 +59,13 @@ func (v *vLogImpl) execMore(f []string) string {
 			ctx, cancel := context.WithTimeout(context.Background(), 400*time.Millisecond)
 			m, off, ts, ep, err := lr.r.ReadMessage(ctx, buf)
 			cancel()
+			// the message IS readable (counted above): a read that only ran out of time on a loaded machine is given more
+			// of it before "TIMEOUT" (= never delivered) is reported; a reader that really is stuck costs 3 s more
+			for more := 0; err != nil && strings.Contains(err.Error(), "EOF") && more < 6; more++ {
+				ctx, cancel = context.WithTimeout(context.Background(), 500*time.Millisecond)
+				m, off, ts, ep, err = lr.r.ReadMessage(ctx, buf)
+				cancel()
+			}
 			if err != nil {
 				if strings.Contains(err.Error(), "EOF") {
 					out = append(out, "TIMEOUT")
